@@ -19,6 +19,8 @@ inductive Op where
   | write (c : Cmd)          -- execute / load / invalid load / noop through the log
   | boot (d : Db)
   | snapshot (trailing : Nat)
+  | snapshotAborted          -- checkpoint done, then Persist fails: the sink is cancelled, nothing installed
+  | snapshotNoFingerprint (trailing : Nat)   -- snapshot installed, but the finalizer fails (only logged)
   | restart                  -- crash or close at this point, then reopen
 deriving Repr
 
@@ -26,6 +28,8 @@ def apply (n : Node) : Op → Node
   | .write c => write n c
   | .boot d => boot n d
   | .snapshot t => snapshot n t
+  | .snapshotAborted => snapCheckpoint n
+  | .snapshotNoFingerprint t => snapCompact (sinkClose false (snapPersist (snapCheckpoint n))) t
   | .restart => openNode (crash n)
 
 def run (n : Node) (ops : List Op) : Node := ops.foldl apply n
@@ -35,12 +39,40 @@ def Good (n : Node) : Prop := DurInv n ∧ Quiet n
 
 theorem good_init : Good {} := ⟨durInv_init, quiet_init⟩
 
+theorem sinkClose_false (n : Node) : sinkClose false n = snapInstall n := by
+  simp [sinkClose, snapInstall, sinkCloseSteps, List.take, List.foldl, sinkStep]
+
+theorem sinkClose_true (n : Node) : sinkClose true n = snapFingerprint (snapInstall n) := by
+  simp [sinkClose, snapInstall, snapFingerprint, sinkCloseSteps, List.take, List.foldl, sinkStep]
+
+/-- a complete snapshot is: checkpoint, the steps of `Persist`, the steps of `Sink.Close`, compaction -/
+theorem snapshot_is_step_lists (n : Node) (t : Nat) :
+    snapshot n t = snapCompact (sinkClose true (persistSteps.foldl (persistStep true) (snapCheckpoint n))) t := by
+  rw [sinkClose_true]; rfl
+
+/-- a snapshot whose finalizer failed: installed, fingerprint untouched -/
+theorem noFingerprint_spec {n : Node} (h : DurInv n) (q : Quiet n) (t : Nat) :
+    Good (snapCompact (sinkClose false (snapPersist (snapCheckpoint n))) t) ∧
+    (snapCompact (sinkClose false (snapPersist (snapCheckpoint n))) t).live = n.live := by
+  rw [sinkClose_false]
+  have h1 := durInv_snapCheckpoint h
+  have h2 := durInv_snapPersist h1
+  have m2 := midSnap_persist q.snapPre
+  have h3 := durInv_snapInstall h2 m2
+  have p3 := postInstall m2
+  have q3 : Quiet (snapInstall (snapPersist (snapCheckpoint n))) := ⟨p3.up, p3.applied, p3.live, p3.notmp, p3.fileok, p3.nopeers⟩
+  have c5 := snapCompact_spec h3 t
+  refine ⟨⟨c5.1, c5.2.2 q3⟩, ?_⟩
+  rw [(snapCompact_fields _ t).2.1, snapInstall_eq m2]; rfl
+
 theorem good_apply {n : Node} (g : Good n) (op : Op) : Good (apply n op) := by
   obtain ⟨h, q⟩ := g
   cases op with
   | write c => obtain ⟨q', h', _⟩ := quiet_write h q c; exact ⟨h', q'⟩
   | boot d => obtain ⟨a, b, _⟩ := boot_spec h q d; exact ⟨a, b⟩
   | snapshot t => obtain ⟨h', q', _⟩ := snapshot_spec h q t; exact ⟨h', q'⟩
+  | snapshotAborted => exact ⟨durInv_snapCheckpoint h, (quiet_snapCheckpoint q).1⟩
+  | snapshotNoFingerprint t => exact (noFingerprint_spec h q t).1
   | restart =>
     obtain ⟨_, _, h', q', _⟩ := open_truth (durInv_crash h) (by show n.peersFile = none; exact q.nopeers)
     exact ⟨h', q'⟩
@@ -55,6 +87,8 @@ def effect (d : Db) : Op → Db
   | .write c => applyCmd d c
   | .boot d' => d'
   | .snapshot _ => d
+  | .snapshotAborted => d
+  | .snapshotNoFingerprint _ => d
   | .restart => d
 
 theorem live_apply {n : Node} (g : Good n) (op : Op) : (apply n op).live = effect n.live op := by
@@ -66,6 +100,8 @@ theorem live_apply {n : Node} (g : Good n) (op : Op) : (apply n op).live = effec
     rw [q'.live, ht, q.live]
   | boot d => exact (boot_spec h q d).2.2.1
   | snapshot t => exact (snapshot_spec h q t).2.2.2.2.1
+  | snapshotAborted => rfl
+  | snapshotNoFingerprint t => exact (noFingerprint_spec h q t).2
   | restart =>
     obtain ⟨hl, _⟩ := open_truth (durInv_crash h) (by show n.peersFile = none; exact q.nopeers)
     show (openNode (crash n)).live = n.live
@@ -160,8 +196,27 @@ theorem invalid_load_rejected_without_change (pre post : List Op) :
     simp only [List.foldl_append, List.foldl_cons, List.foldl_nil]
     rfl
 
+/-- the rejection is reported: `Swap` returns an error for data SQLite cannot open, and it does
+so at the second gate, before the step that closes the current database -/
+theorem invalid_load_reports_error (n : Node) :
+    (swapSteps.foldl (swapStep none) { n := n }).failed = true ∧
+    ((swapSteps.take 2).foldl (swapStep none) { n := n }).failed = true ∧
+    ((swapSteps.take 2).foldl (swapStep none) { n := n }).n = n := by
+  simp [swapSteps, List.take, List.foldl, swapStep]
+
+/-- the ORDER of the gates matters: with the "can SQLite open it" check after the removal of the
+current database (where the unrepaired code effectively had it: the first failure came from
+opening the renamed file), invalid data leaves the node without a database -/
+theorem gate_after_removal_witness :
+    let late : List SwapStep := [.gateMagic, .closeCurrent, .removeCurrent, .renameNew, .openNew]
+    (swapRun late none ({ dbFile := [(1, 1)], live := [(1, 1)] } : Node)).dbFileOk = false ∧
+    (swapRun swapSteps none ({ dbFile := [(1, 1)], live := [(1, 1)] } : Node)).dbFileOk = true := by
+  decide
+
 /-! ### regenerated facts (harness/extract/facts_storeorder.go)
-the validity gates sit where the model puts them -/
+the model's step lists ARE the extracted ones -/
+
+theorem code_swap_steps : RqModel.Gen.StoreOrder.swapSteps = swapSteps.map SwapStep.code := by decide
 
 theorem code_load_gates :
     RqModel.Gen.StoreOrder.swapGateBeforeClose = some true ∧
